@@ -582,9 +582,11 @@ def run(ctx):
                      "generated scripts with walks), spends (all kinds of spendgen, taproot script paths of length 0..4%s, hand-built "
                      "scriptPubKey/P2SH/P2WSH sections, doc/txs), malformed / failing sessions; pty cross-check of %d sessions per stream"
                      % (7 if quick else 10, "" if quick else ",7,128", n))
+    from . import c12dual; c12dual.run(ctx)          # the two-column display (print_dualstack)
 
 
 def replay(ctx, case):
+    if case.startswith("DUAL "): from . import c12dual; return c12dual.replay(ctx, case)
     print("impl :", ctx.harness([case])[0])
     print("model:", ctx.driver([case])[0])
     print("spec :", ctx.driver([case], "spec")[0])
